@@ -344,7 +344,18 @@ func HarnessC03Clauses() {
 		els = "@else<E>"
 	}
 	var src, want string
-	switch vChoice("shape", 5) {
+	switch vChoice("shape", 8) {
+	case 5: // a control directive that fires in an inner @each acts on the inner loop only
+		src = "@each(v in [1, 2, 3])@each(w in [7, 8, 9])@breakIf(w == 8){{ w }}@end|{{ v }};@end"
+		want = "7|1;7|2;7|3;"
+	case 6:
+		src = "@each(v in [1, 2])@each(w in [7, 8, 9])@continueIf(w == 8){{ w }}@end|{{ v }};@end"
+		want = "79|1;79|2;"
+	case 7:
+		src = "@for(i = 0; i < n; i++)@each(w in [7, 8])@if(w == 8)@break@end{{ w }}@end|{{ i }};@end"
+		for i := int64(0); i < n; i++ {
+			want += "7|" + string([]byte{byte('0' + i)}) + ";"
+		}
 	case 0: // no post clause: the body advances the counter
 		src = "@for(i = 0; i < n; ){{ i = i + 1 }}[{{ i }}]" + els + "@end"
 		for i := int64(1); i <= n; i++ {
